@@ -9,17 +9,17 @@ EXTENDS Integers, Sequences
 LmBase == [id |-> "lm", nf |-> 5, off |-> <<5, 20, 40, 45, 70>>,
            span |-> <<<<0, 1>>, <<2, 3>>, <<4>>, <<4, 5, 6>>, <<6, 7>>>>,
            pre |-> <<<<>>, <<>>, <<>>, <<>>, <<4>>>>, prf |-> <<<<>>, <<>>, <<>>, <<>>, <<>>>>, prio |-> <<1, 2>>,
-           lm |-> "prefetch", loff |-> 40, size |-> 100, cs |-> 10, cfg |-> 30, thr |-> 0, f0 |-> <<8, 9>>, rd |-> <<1, 2, 3, 4, 5>>,
+           lm |-> "prefetch", loff |-> 40, size |-> 100, cs |-> 10, cfg |-> 30, thr |-> 0, f0 |-> <<8, 9>>, rd |-> <<1, 2, 3, 4, 5>>, ro |-> 2,
            np |-> 2, nw |-> 2, nb |-> 2]
 \* no-prefetch landmark (file 1)
 NoLm == [id |-> "nolm", nf |-> 3, off |-> <<5, 10, 35>>,
          span |-> <<<<0>>, <<1, 2>>, <<3, 4>>>>, pre |-> <<<<>>, <<>>, <<>>>>, prf |-> <<<<>>, <<>>, <<>>>>, prio |-> <<>>,
-         lm |-> "noprefetch", loff |-> 5, size |-> 70, cs |-> 10, cfg |-> 50, thr |-> 0, f0 |-> <<5, 6>>, rd |-> <<1, 2, 3>>,
+         lm |-> "noprefetch", loff |-> 5, size |-> 70, cs |-> 10, cfg |-> 50, thr |-> 0, f0 |-> <<5, 6>>, rd |-> <<1, 2, 3>>, ro |-> 2,
          np |-> 2, nw |-> 2, nb |-> 2]
 \* no landmark at all (legacy stargz): configured size decides
 NoneBase == [id |-> "none", nf |-> 3, off |-> <<5, 20, 40>>,
              span |-> <<<<0, 1>>, <<2, 3>>, <<4, 5>>>>, pre |-> <<<<>>, <<>>, <<2>>>>, prf |-> <<<<>>, <<1>>, <<>>>>, prio |-> <<>>,
-             lm |-> "none", loff |-> 0, size |-> 80, cs |-> 10, cfg |-> 20, thr |-> 0, f0 |-> <<6, 7>>, rd |-> <<1, 2, 3>>,
+             lm |-> "none", loff |-> 0, size |-> 80, cs |-> 10, cfg |-> 20, thr |-> 0, f0 |-> <<6, 7>>, rd |-> <<1, 2, 3>>, ro |-> 2,
              np |-> 2, nw |-> 2, nb |-> 2]
 
 With(r, id, cfg, thr) == [r EXCEPT !.id = id, !.cfg = cfg, !.thr = thr]
